@@ -46,6 +46,18 @@ theorem keeps_delayRest (c a : Nat) (rest : List (String × Kw)) : Keeps Tr (del
   unfold delayRest
   exact Keeps.bind (Keeps.getHeap _) (fun h => Keeps.updCells _ _ _ (fun _ => rfl))
 
+theorem keeps_regSub (ext : Option Nat) (c : Nat) : Keeps Tr (regSub ext c) TrQ := by
+  unfold regSub
+  split
+  · exact Keeps.updCls _ _ _ (fun _ => ⟨rfl, rfl, rfl⟩)
+  · exact Keeps.pureT _ _
+
+theorem keeps_regSubVariant (F : Facts15) (ext : Option Nat) (c : Nat) : Keeps Tr (regSubVariant F ext c) TrQ := by
+  unfold regSubVariant
+  split
+  · exact keeps_regSub _ _
+  · exact Keeps.pureT _ _
+
 structure KeepsCust (F : Facts15) (fuel : Nat) : Prop where
   custComplex : ∀ src kw ca caa, Keeps Tr (custComplex F fuel src kw ca caa) TrQ
   processCaa : ∀ c a fields ext caa, Keeps Tr (processCaa F fuel c a fields ext caa) TrQ
@@ -74,6 +86,7 @@ theorem keepsCust (F : Facts15) (fuel : Nat) : KeepsCust F fuel := by
       refine Keeps.bind (Keeps.getHeap _) (fun h0 => ?_)
       refine Keeps.bind (Keeps.liftExcept _ _) (fun ext => ?_)
       refine Keeps.bind ((keeps_newVariant F sc src ext kw hk).weaken (fun _ p => p.1.1.2) (fun _ _ q => q)) (fun an => ?_)
+      refine Keeps.bind (keeps_regSubVariant _ _ _).anyPre (fun _ => ?_)
       refine Keeps.bind (ih.processCaa _ _ _ _ _).anyPre (fun _ => ?_)
       refine Keeps.bind (ih.processCa _ _ _).anyPre (fun _ => ?_)
       exact Keeps.pureT _ _
@@ -206,12 +219,15 @@ theorem keeps_subclassOp (F : Facts15) (hF : F.varRule = .ownPerClass) (hX : F.v
     (base : Option Nat) (name : String) (ns : Option String) (fields : List (String × Nat)) (perm : List Nat)
     (attrs : Option Kw) (mixins : List Nat) (asMixin : Bool) :
     Keeps Tr (subclassOp F base name ns fields perm attrs mixins asMixin) TrQ := by
-  unfold subclassOp
+  unfold subclassOp subclassRest
   refine Keeps.bind (Keeps.getCls Tr _) (fun bc => ?_)
   refine Keeps.bind (Keeps.liftExcept _ _) (fun ext => ?_)
   refine Keeps.bind (Keeps.getHeap _) (fun h0 => ?_)
   refine Keeps.bind (Keeps.guardNone _ _) (fun _ => ?_)
-  exact Keeps.allocBoth_declared _ _ _ (by cases attrs <;> simp [declaredVariants, hF, hX]) (fun _ => ⟨rfl, rfl, rfl⟩)
+  refine Keeps.bind (Keeps.allocBoth_declared _ _ _ (by cases attrs <;> simp [declaredVariants, hF, hX])
+    (fun _ => ⟨rfl, rfl, rfl⟩)) (fun c => ?_)
+  refine Keeps.bind (keeps_regSub _ _).anyPre (fun _ => ?_)
+  exact Keeps.pureT _ _
 
 theorem keeps_protMerge (F : Facts15) (prot : Option Nat) (kw : Kw) (P : Heap → Prop)
     (hP : ∀ h h' : Heap, h'.cls = h.cls → P h → P h') : Keeps P (protMerge F prot kw) (fun _ h => P h) := by
